@@ -64,7 +64,9 @@ def rule_labels(ctx):
             else:
                 ctx.ok(R, key + "/label-less-non-error", "not an error report (display of findings is C03.6)", site(p["file"], p["node"]))
         else:
-            ctx.bad(R, key + "/label-on-some-paths-only", p["detail"] + ": the report is discarded by the per-file filter on the other paths", site(p["file"], p["node"]))
+            # a label on some paths only: harmless for an error if the filter lets label-less errors through
+            okk = p["category"] == "error" and (tol == "all" or "Error" in tol)
+            ctx.check(R, key + "/label-on-some-paths-only", okk, p["detail"] + ": the report is discarded by the per-file filter on the paths without a label (filter accepts label-less: %s)" % ("all" if tol == "all" else sorted(tol)), site(p["file"], p["node"]))
 
 
 def must_call_before(fn, target, names):
